@@ -322,7 +322,9 @@ package dns
 //@   ensures key: ret0 == s.KeyCode
 //@   pure
 
+// nothing is allocated up front from a length the sender controls (the options are appended one by one)
 //@ func unpackDataOpt [C01 C02]
+//@   opt alloc-bound = 1
 //@   assert at "overflow unpacking opt@1" e1: off + 4 > len(msg) [C01]
 //@   assert at "overflow unpacking opt@2" e2: off + optlen > len(msg) [C01]
 //@   requires 0 <= off
